@@ -20,6 +20,8 @@ BP_TOML = {
     "malformed": 'api = "0.10"\n[buildpack\n',
     "file-missing": None,
     "unknown-key": VALID_BP_TOML + "\n[zzz]\nq = 1\n",
+    # a complete descriptor that is not a text file: one byte that is not UTF-8, inside a comment
+    "non-utf8-comment": VALID_BP_TOML.encode() + b"\n# caf\xe9\n",
     # a valid descriptor that declares one SBOM format; the build result may still carry others
     "valid-sbom-formats": VALID_BP_TOML.replace('version = "1.2.3"\n', 'version = "1.2.3"\nsbom-formats = ["application/vnd.cyclonedx+json"]\n'),
 }
@@ -162,6 +164,8 @@ def judge(w, cfg):
     bp = w.p("bp", "buildpack.toml")
     if toml is None:
         os.unlink(bp)
+    elif isinstance(toml, bytes):
+        open(bp, "wb").write(toml)
     else:
         open(bp, "w").write(toml)
     if cfg["stale"]:
@@ -420,7 +424,7 @@ def run(ctx):
     res.cov("distinct_nontrivial", len(nontrivial))
     res.cov("distinct_outcomes", sorted(outcomes))
     res.cov("determinism_replays", 5)
-    res.cov("rule", "configurations = executable name (phase, other, <buildpack dir>/bin/phase, phase.bak) x argument count 0..4 x buildpack.toml (valid, valid with a declared sbom-formats list, api 0.9/0.11/1/missing, malformed, file missing, unknown key) x CNB_BUILDPACK_DIR x each mandatory CNB_TARGET_* variable x ARCH_VARIANT x behaviour (4 detect; 16 pass results x SBOM sets + error + layer error for build) x stale outputs; plus, for valid detect invocations, the plan path as a bare file name, ./name, a path in a missing directory and non-UTF-8 plan / platform paths x 4 behaviours; every argument count with the lifecycle's CNB_*_DIR/PATH variables exported; each run as a real process; plus every in-process sequence of 2 (thorough 3) programmatic detect/build calls over 12 symbols, exit status and written files of each step compared with the same call alone in a fresh process; non-trivial = configurations that reach the phase or deviate from a valid invocation in exactly one dimension")
+    res.cov("rule", "configurations = executable name (phase, other, <buildpack dir>/bin/phase, phase.bak) x argument count 0..4 x buildpack.toml (valid, valid with a declared sbom-formats list, api 0.9/0.11/1/missing, malformed, not UTF-8 inside a comment, file missing, unknown key) x CNB_BUILDPACK_DIR x each mandatory CNB_TARGET_* variable x ARCH_VARIANT x behaviour (4 detect; 16 pass results x SBOM sets + error + layer error for build) x stale outputs; plus, for valid detect invocations, the plan path as a bare file name, ./name, a path in a missing directory and non-UTF-8 plan / platform paths x 4 behaviours; every argument count with the lifecycle's CNB_*_DIR/PATH variables exported; each run as a real process; plus every in-process sequence of 2 (thorough 3) programmatic detect/build calls over 12 symbols, exit status and written files of each step compared with the same call alone in a fresh process; non-trivial = configurations that reach the phase or deviate from a valid invocation in exactly one dimension")
     res.cov("bound", {"deviations_from_valid_invocation": "<=3 all behaviours" if not ctx.thorough else "full product for detect and for build up to 3 deviations; beyond that build behaviours {first,last}"})
     res.cov("exhaustive", True)
     res.sample(cfgs[0])
